@@ -95,7 +95,7 @@ class Prop:
                    "norm where a scale exists); exact-arithmetic statements are not claimed",
                    "invalid mu (outside the documented ranges) is not exercised: the property has no error clause",
                    "batch tensors are not exercised"]
-    THEOREMS = ["C13_left_unchanged", "C13_left_gauge", "C13_right_unchanged", "C13_right_gauge", "C13_isometry", "C13_norm", "C13_orthogonalize"]
+    THEOREMS = ["C13_left_unchanged", "C13_left_gauge", "C13_right_unchanged", "C13_right_gauge", "C13_isometry", "C13_norm", "C13_orthogonalize", "C13_factor_unchanged", "C13_factor_gauge"]
 
     # ------------------------------------------------------------------ generation
     def generate(self, rng, tier):
